@@ -103,46 +103,61 @@ def frame_region(mod, k, cls, L, fd):
 
 
 def talker(tm, use_tscf, use_udp, fd, frames):
-    """mirror of the talker's sending loop for one packet -> (packet image list, packet length, announced length, acf bytes)"""
-    regs = {PKT: Region(PKT, 'sym', 1500),
-            '@use_tscf': gregion(tm, 'use_tscf', 1 if use_tscf else 0),
+    """The talker's real main() is interpreted for one packet: argument parsing and socket helpers are replaced by
+    models, read() on the CAN socket delivers the input frames, the first sendto() records the packet and ends the
+    run.  -> (dict(img, len, acf, cf, ids), None) or (None, error)"""
+    regs = {'@use_tscf': gregion(tm, 'use_tscf', 1 if use_tscf else 0),
             '@use_udp': gregion(tm, 'use_udp', 1 if use_udp else 0),
             '@can_variant': gregion(tm, 'can_variant', 1 if fd else 0),
-            '@seq_num': gregion(tm, 'seq_num', 7)}
+            '@num_acf_msgs': gregion(tm, 'num_acf_msgs', len(frames)),
+            '@seq_num': gregion(tm, 'seq_num', 7),
+            '@udp_seq_num': gregion(tm, 'udp_seq_num', 0x01020304)}
     ids = []
     for k, (cls, L) in enumerate(frames):
         r, cid = frame_region(tm, k, cls, L, fd)
         regs[r.name] = r
         ids.append(cid)
     out = {}
+    state = {'k': 0}
 
-    def script(m, _):
-        off = 0
-        if use_udp:
-            m.call('Avtp_Udp_SetEncapsulationSeqNo', [Ptr(PKT, 0), bpa.sym_arg('useq', 32)])
-            off = 4
-        cf = off
-        h = m.call('init_cf_pdu', [Ptr(PKT, cf)])
-        if not isinstance(h, int):
-            m.undecided('init_cf_pdu returned a symbolic length')
-        off += h
-        cflen = h
-        for k in range(len(frames)):
-            n = m.call('prepare_acf_packet', [Ptr(PKT, off), Ptr('frame%d' % k, 0)])
-            if not isinstance(n, int):
-                m.undecided('prepare_acf_packet returned a symbolic length')
-            off += n
-            cflen += n
-        m.call('update_cf_length', [Ptr(PKT, cf), cflen])
-        out['len'] = off
-        out['acf'] = cflen - h
-        out['cf'] = cf
-        return None
-    ws = bpa.analyse(tm, script, lambda: ([], regs), max_worlds=4, max_steps=400000, externals=ext_models())
-    if len(ws) != 1 or ws[0].status != 'ok':
+    def const(v):
+        return lambda m, args, ins: v
+
+    def read(m, args, ins):
+        buf, n = args[1], args[2]
+        if not isinstance(n, int) or state['k'] >= len(frames):
+            m.undecided('unexpected read() on the CAN socket')
+        m.memcpy(buf, Ptr('frame%d' % state['k'], 0), n)
+        state['k'] += 1
+        return n
+
+    def sendto(m, args, ins):
+        buf, n = args[1], args[2]
+        if not isinstance(n, int):
+            m.undecided('sendto with a symbolic length')
+        r = m.region_of(buf, 'sendto')
+        out['img'] = [r.get(buf.off + i) for i in range(n)]
+        out['len'] = n
+        raise bpa.Halt()
+    ext = ext_models()
+    ext.update({'read': read, 'sendto': sendto, 'close': const(0), 'argp_parse': const(0)})
+    over = {'create_talker_socket_udp': const(5), 'create_talker_socket': const(5), 'setup_udp_socket_address': const(0),
+            'setup_socket_address': const(0), 'setup_can_socket': const(6)}
+    for fn in list(over) + ['main']:
+        if fn not in tm.functions:
+            return None, 'talker function %s not found' % fn
+    mfn = tm.functions['main']
+
+    def mk():
+        state['k'] = 0
+        return [1, bpa.NULL][:len(mfn.params)], dict((k, Region(v.name, v.kind, v.size, dict(v.mem), v.writable)) for k, v in regs.items())
+    ws = bpa.analyse(tm, 'main', mk, max_worlds=4, max_steps=800000, externals=ext, overrides=over)
+    if len(ws) != 1 or ws[0].status != 'ok' or 'img' not in out:
         return None, 'talker side: %s' % [w.reason for w in ws]
-    img = [ws[0].regions[PKT].get(i) for i in range(out['len'])]
-    out['img'] = img
+    cf = 4 if use_udp else 0
+    hdr = 24 if use_tscf else 12
+    out['cf'] = cf
+    out['acf'] = out['len'] - cf - hdr
     out['ids'] = ids
     return out, None
 
@@ -337,9 +352,8 @@ def run(tier, res):
     d = build.scratch()
     MOD['talker'] = load_program('acf-can-talker', d)
     MOD['listener'] = load_program('acf-can-listener', d)
-    for fn in ('init_cf_pdu', 'prepare_acf_packet', 'update_cf_length'):
-        if fn not in MOD['talker'].functions:
-            raise Broken('talker function %s not found (anchor vanished)' % fn)
+    if 'main' not in MOD['talker'].functions:
+        raise Broken('talker main() not found (anchor vanished)')
     if 'new_packet' not in MOD['listener'].functions:
         raise Broken('listener function new_packet not found (anchor vanished)')
     sc = scenarios(tier)
